@@ -2,6 +2,7 @@ package main
 
 import (
 	"bytes"
+	"slices"
 
 	"verifharness/memdb"
 
@@ -247,6 +248,20 @@ func (w *World) build(parent *TNode, spec BlockSpec) *TNode {
 		for x, i := parent, 0; x != nil && i < 3; x, i = x.Parent, i+1 {
 			if len(x.Block.SideBlocks) > 0 {
 				bl.SideBlocks = append(bl.SideBlocks, x.Block.SideBlocks[0])
+				bl.CumulativeDiff = pb.CumulativeDiff.Add(bl.ContributionToCumulativeDiff())
+				break
+			}
+		}
+	case "side-rereference-permuted":
+		// the same, with the side block's list of merge-mined chains in another order (the mining blob sorts it: the
+		// same work)
+		for x, i := parent, 0; x != nil && i < 3; x, i = x.Parent, i+1 {
+			if len(x.Block.SideBlocks) > 0 {
+				sc := x.Block.SideBlocks[0]
+				oc := append([]block.HashingID{}, sc.OtherChains...)
+				slices.Reverse(oc)
+				sc.OtherChains = oc
+				bl.SideBlocks = append(bl.SideBlocks, sc)
 				bl.CumulativeDiff = pb.CumulativeDiff.Add(bl.ContributionToCumulativeDiff())
 				break
 			}
